@@ -125,9 +125,25 @@ func CleanupScratch() {
 	}
 }
 
-// Materialise writes the project into a fresh directory and returns it.
+var scratchMu sync.Mutex
+
+// Materialise writes the project into a private directory and returns it. The
+// directory's name is the lowest p<N> that does not exist at the moment, so the
+// paths of removed projects are used again by later ones: anything the library
+// remembers under a file's path (instead of reading the file) meets other
+// content there.
 func Materialise(p Project) string {
-	dir := filepath.Join(ScratchBase(), fmt.Sprintf("p%d", scratchSeq.Add(1)))
+	scratchMu.Lock()
+	var dir string
+	for i := 1; ; i++ {
+		dir = filepath.Join(ScratchBase(), fmt.Sprintf("p%d", i))
+		if _, err := os.Stat(dir); err != nil {
+			_ = os.MkdirAll(dir, 0o755)
+			break
+		}
+	}
+	scratchMu.Unlock()
+	scratchSeq.Add(1)
 	MaterialiseIn(p, dir)
 	return dir
 }
@@ -297,7 +313,16 @@ func runRaw(p Project, dir string, opts []core.Option, shared *fs.File) (res Res
 	} else if shared != nil {
 		j = kit.NewJApiFromFile(shared, opts...)
 	} else {
-		j = kit.NewJApiFromFile(fs.NewFile(filepath.Join("/nonexistent-verif", p.Root), []byte(p.Files[p.Root])), opts...)
+		// the caller's byte slice must come back unchanged
+		buf := []byte(p.Files[p.Root])
+		defer func() {
+			if string(buf) != p.Files[p.Root] && res.Panic == "" {
+				res.Panic = "caller-bytes-modified: the library changed the source bytes it was given @ " + stage
+				res.PanicStage = stage
+				res.Accepted = false
+			}
+		}()
+		j = kit.NewJApiFromFile(fs.NewFile(filepath.Join("/nonexistent-verif", p.Root), buf), opts...)
 	}
 	stage = "validate"
 	if je := j.ValidateJAPI(); je != nil {
